@@ -571,14 +571,25 @@ V('11.2', 'C11', 'R11d', 'fire', BRA,
         if s:
             return d''', 'switch evaluates every case')
 V('11.3', 'C11', 'R11a', 'fire', RUN,
-  '''            matches = []
+  '''    args = tuple(arg_evaluator(i, arg) for i, arg in enumerate(args))
+    for key, value in kwargs.items():
+        kwargs[key] = arg_evaluator(key, value)
+
+    delegate = None
+    for level in candidates2:
+        matches = []
         for c, mapping in level:
-            try:''' if False else '''        matches = []
+            try:''', '''    raw_args = args
+    for key, value in kwargs.items():
+        kwargs[key] = arg_evaluator(key, value)
+
+    delegate = None
+    for level in candidates2:
+        matches = []
         for c, mapping in level:
-            try:''', '''        matches = []
-        for c, mapping in level:
-            args = tuple(arg_evaluator(i, arg) for i, arg in enumerate(args))
-            try:''', 'argument evaluation inside the candidate loop')
+            args = tuple(arg_evaluator(i, arg)
+                         for i, arg in enumerate(raw_args))
+            try:''', 'arguments evaluated afresh for every candidate')
 V('11.4', 'C11', 'R11b', 'fire', SPE,
   '''            if not positional_args[i].value_type.check(value, context, engine):
                 return None''',
